@@ -185,7 +185,7 @@ pub fn plan_to_json(p: &Plan) -> J {
     J::obj(vec![
         ("container", J::s(kind_name(p.kind))),
         ("class", J::s(if p.faulty { "faulty" } else { "clean" })),
-        ("element", J::s(ELEM_NAMES[p.elem as usize % 3])),
+        ("element", J::s(ELEM_NAMES[p.elem as usize % 4])),
         ("ops", J::Arr(p.ops.iter().map(op_to_json).collect())),
     ])
 }
@@ -202,6 +202,7 @@ pub fn plan_from_json(j: &J) -> Result<Plan, String> {
     let elem = match j.get("element").and_then(|x| x.as_str()) {
         Some("Wide16") => 1,
         Some("PlainNoDrop") => 2,
+        Some("ZstDrop") => 3,
         _ => 0,
     };
     Ok(Plan { kind, faulty, elem, ops })
